@@ -284,10 +284,14 @@ func probeHost(h *mux.Hosts, host string) hostObs { return probeHostURL(h, host,
 
 // probeHostURL: urlHost is the authority of the request target (URL.Host); the matcher goes by the Host header.
 func probeHostURL(h *mux.Hosts, host, urlHost string) hostObs {
+	return probeHostReq(h, hv.Req{Method: "GET", Path: "/", Host: host, URLHost: urlHost})
+}
+
+func probeHostReq(h *mux.Hosts, q hv.Req) hostObs {
 	var o hostObs
 	ctx := types.NewContext()
 	o.panicv, o.bad = Guard(func() {
-		o.ok = h.Match(hv.NewRequest(hv.Req{Method: "GET", Path: "/", Host: host, URLHost: urlHost}, &hv.Obs{}), ctx)
+		o.ok = h.Match(hv.NewRequest(q, &hv.Obs{}), ctx)
 	})
 	ps := map[string]string{}
 	ctx.Range(func(k, v string) { ps[k] = v })
@@ -400,6 +404,12 @@ func c14Expand(raw json.RawMessage) (any, error) {
 			c.Probes++
 			if od := probeHostURL(h, host, decoy).String(); od != got {
 				c.Viols = append(c.Viols, explore.Violation{Property: "C14", Clause: "C14.match", Class: "goes-by-url-authority", History: hs, Probe: fmt.Sprintf("Match(Host=%q, URL.Host=%q)", host, decoy), Observed: od, Expected: got + "  (the answer for the same Host header with an empty URL.Host; live: " + m.String() + ")"})
+			}
+			// ... and by nothing else: not by the request method (known, reserved, extension, empty)
+			alt := []string{"TRACE", "PROPFIND", "", "POST", "OPTIONS"}[i%5]
+			c.Probes++
+			if om := probeHostReq(h, hv.Req{Method: alt, Path: "/", Host: host}).String(); om != got {
+				c.Viols = append(c.Viols, explore.Violation{Property: "C14", Clause: "C14.match", Class: "goes-by-request-method", History: hs, Probe: fmt.Sprintf("Match(method=%q, Host=%q)", alt, host), Observed: om, Expected: got + "  (the answer for the same Host in a GET request; live: " + m.String() + ")"})
 			}
 			if !framed && op.K == "del" && beforeExp[i] == want && before[i] != got {
 				framed = true
